@@ -3,11 +3,16 @@ package main
 // helpers shared by the c04 and c08 streams (PLY): hex / mesh / header token forms, guarded calls of the real reader
 
 import (
+	"bufio"
 	"bytes"
 	"encoding/hex"
 	"fmt"
+	"io"
+	"os"
+	"path/filepath"
 	"sort"
 	"strings"
+	"testing/iotest"
 
 	"github.com/EliCDavis/polyform/formats/ply"
 	"github.com/EliCDavis/polyform/modeling"
@@ -206,3 +211,145 @@ func plyImplReadMesh(b []byte) (string, *modeling.Mesh) {
 	return s, back
 }
 
+
+// ---- every public way a PLY file can reach the parser ---------------------------------------------------------------
+//
+// The property says the file "loads": the result must not depend on the io.Reader the caller happens to hold nor on the
+// entry point (ReadMesh, MeshReader.Read, ply.Load, MeshReader.Load).  plyEntryResults reads the same bytes through every
+// one of them; the oracle `…holds.entrypoints_agree` (all segments equal) is evaluated by the driver.
+
+// a MeshReader configured like the package's unexported default reader (reader.go:224-314)
+func plyPublicDefaultReader() ply.MeshReader {
+	v3 := func(attr, x, y, z string) ply.PropertyReader {
+		return &ply.Vector3PropertyReader{ModelAttribute: attr, PlyPropertyX: x, PlyPropertyY: y, PlyPropertyZ: z}
+	}
+	v4 := func(attr, x, y, z, w string, ign bool) ply.PropertyReader {
+		return &ply.Vector4PropertyReader{ModelAttribute: attr, IgnorableW: ign, PlyPropertyX: x, PlyPropertyY: y, PlyPropertyZ: z, PlyPropertyW: w}
+	}
+	return ply.MeshReader{
+		AttributeElement:          ply.VertexElementName,
+		LoadUnspecifiedProperties: true,
+		Properties: []ply.PropertyReader{
+			v3(modeling.PositionAttribute, "x", "y", "z"),
+			v3(modeling.PositionAttribute, "px", "py", "pz"),
+			v3(modeling.PositionAttribute, "posx", "posy", "posz"),
+			v3(modeling.NormalAttribute, "nx", "ny", "nz"),
+			v3(modeling.NormalAttribute, "normalx", "normaly", "normalz"),
+			v4(modeling.ColorAttribute, "red", "green", "blue", "alpha", true),
+			v4(modeling.ColorAttribute, "r", "g", "b", "a", true),
+			v4(modeling.ColorAttribute, "diffuse_red", "diffuse_green", "diffuse_blue", "diffuse_alpha", true),
+			&ply.Vector2PropertyReader{ModelAttribute: modeling.TexCoordAttribute, PlyPropertyX: "s", PlyPropertyY: "t"},
+			v3(modeling.FDCAttribute, "f_dc_0", "f_dc_1", "f_dc_2"),
+			&ply.Vector1PropertyReader{ModelAttribute: modeling.OpacityAttribute, PlyProperty: "opacity"},
+			v3(modeling.ScaleAttribute, "scale_0", "scale_1", "scale_2"),
+			v4(modeling.RotationAttribute, "rot_0", "rot_1", "rot_2", "rot_3", false),
+		},
+	}
+}
+
+var plyTmpDir string
+
+func plyTmpFile(data []byte) string {
+	if plyTmpDir == "" {
+		d, err := os.MkdirTemp("", "verif-ply-")
+		if err != nil {
+			panic(err)
+		}
+		plyTmpDir = d
+	}
+	p := filepath.Join(plyTmpDir, "case.ply")
+	if err := os.WriteFile(p, data, 0o600); err != nil {
+		panic(err)
+	}
+	return p
+}
+
+func plyTmpCleanup() {
+	if plyTmpDir != "" {
+		os.RemoveAll(plyTmpDir)
+		plyTmpDir = ""
+	}
+}
+
+type plyEntry struct {
+	name string
+	read func(data []byte) (*modeling.Mesh, error)
+}
+
+func plyReaderEntries(full bool) []plyEntry {
+	viaReader := func(name string, mk func(data []byte) io.Reader) plyEntry {
+		return plyEntry{name, func(data []byte) (*modeling.Mesh, error) { return ply.ReadMesh(mk(data)) }}
+	}
+	es := []plyEntry{
+		viaReader("bytes.Reader", func(d []byte) io.Reader { return bytes.NewReader(d) }),
+		viaReader("bufio.Reader", func(d []byte) io.Reader { return bufio.NewReader(bytes.NewReader(d)) }),
+		viaReader("bufio.Reader(16)", func(d []byte) io.Reader { return bufio.NewReaderSize(bytes.NewReader(d), 16) }),
+		viaReader("iotest.HalfReader", func(d []byte) io.Reader { return iotest.HalfReader(bytes.NewReader(d)) }),
+		{"ply.Load", func(d []byte) (*modeling.Mesh, error) { return ply.Load(plyTmpFile(d)) }},
+	}
+	if !full {
+		return es
+	}
+	return append(es,
+		viaReader("strings.Reader", func(d []byte) io.Reader { return strings.NewReader(string(d)) }),
+		viaReader("bytes.Buffer", func(d []byte) io.Reader { return bytes.NewBuffer(append([]byte{}, d...)) }),
+		viaReader("bufio.Reader(65536)", func(d []byte) io.Reader { return bufio.NewReaderSize(bytes.NewReader(d), 65536) }),
+		viaReader("iotest.OneByteReader", func(d []byte) io.Reader { return iotest.OneByteReader(bytes.NewReader(d)) }),
+		viaReader("iotest.DataErrReader", func(d []byte) io.Reader { return iotest.DataErrReader(bytes.NewReader(d)) }),
+		viaReader("bufio(OneByteReader)", func(d []byte) io.Reader { return bufio.NewReader(iotest.OneByteReader(bytes.NewReader(d))) }),
+		plyEntry{"MeshReader.Read", func(d []byte) (*modeling.Mesh, error) { return plyPublicDefaultReader().Read(bytes.NewReader(d)) }},
+		plyEntry{"MeshReader.Read(bufio)", func(d []byte) (*modeling.Mesh, error) {
+			return plyPublicDefaultReader().Read(bufio.NewReader(bytes.NewReader(d)))
+		}},
+		plyEntry{"MeshReader.Load", func(d []byte) (*modeling.Mesh, error) { return plyPublicDefaultReader().Load(plyTmpFile(d)) }},
+	)
+}
+
+// the canonical result of loading `data` through every entry point, joined by the separator token "|"
+func plyEntryResults(data []byte, full bool) string {
+	parts := []string{}
+	for _, e := range plyReaderEntries(full) {
+		e := e
+		parts = append(parts, Guard(func() string {
+			m, err := e.read(data)
+			if err != nil {
+				return "err"
+			}
+			return plyOkMesh(*m)
+		}))
+	}
+	return strings.Join(parts, " | ")
+}
+
+// ReadHeader through the same reader types (the unread remainder depends on buffering, so only the header is compared)
+func plyHeaderEntryResults(data []byte) string {
+	mk := []func(d []byte) io.Reader{
+		func(d []byte) io.Reader { return bytes.NewReader(d) },
+		func(d []byte) io.Reader { return strings.NewReader(string(d)) },
+		func(d []byte) io.Reader { return bufio.NewReader(bytes.NewReader(d)) },
+		func(d []byte) io.Reader { return bufio.NewReaderSize(bytes.NewReader(d), 16) },
+		func(d []byte) io.Reader { return iotest.OneByteReader(bytes.NewReader(d)) },
+		func(d []byte) io.Reader { return iotest.DataErrReader(bytes.NewReader(d)) },
+		func(d []byte) io.Reader {
+			f, err := os.Open(plyTmpFile(d))
+			if err != nil {
+				panic(err)
+			}
+			b, _ := io.ReadAll(f) // *os.File contents through a bufio.Reader, as ply.Load does
+			f.Close()
+			return bufio.NewReader(bytes.NewReader(b))
+		},
+	}
+	parts := []string{}
+	for _, f := range mk {
+		f := f
+		parts = append(parts, Guard(func() string {
+			h, err := ply.ReadHeader(f(data))
+			if err != nil {
+				return "err"
+			}
+			return plyHeaderTok(h, 0)
+		}))
+	}
+	return strings.Join(parts, " | ")
+}
